@@ -61,20 +61,23 @@ theorem ParserAlignedPacket_unpack_blocks_state_independent (t u : Packet) (buf 
   simp only [Packet.unpack]
   split <;> simp
 
-/- Full statement (FALSE of the faithful model, hence of the code):
-     (Packet.unpack t buf).2 = .ok () → Packet.unpack t buf = Packet.unpack Packet.fresh buf
-   `unpack` never writes the public attribute `numberofblocks`; what a history assigned to it survives. -/
-theorem ParserAlignedPacket_unpack_state_independent_partial (t u : Packet) (buf : Bytes)
-    (hn : t.numberofblocks = u.numberofblocks) : Packet.unpack t buf = Packet.unpack u buf := by
-  simp only [Packet.unpack, hn]
-
-/-- witness of the gap: the attribute keeps whatever the object held (and is 0, not the block count, on a new object) -/
-theorem ParserAlignedPacket_unpack_keeps_numberofblocks (t : Packet) (buf : Bytes) :
-    (Packet.unpack t buf).1.numberofblocks = t.numberofblocks := by
+/-- a successful unpack leaves the packet in the state a new object would be in: the block list and
+    `numberofblocks` are both rebuilt from the bytes (the latter since the `fix:` commit that made
+    `unpack` write it) -/
+theorem ParserAlignedPacket_unpack_state_independent (t u : Packet) (buf : Bytes)
+    (h : (Packet.unpack t buf).2 = .ok ()) : Packet.unpack t buf = Packet.unpack u buf := by
+  revert h
   simp only [Packet.unpack]
-  split <;> rfl
+  split <;> simp
 
-example : (Packet.unpack { Packet.fresh with numberofblocks := 3 } [0, 2, 0, 0, 0, 0, 0, 0]).1 ≠
+theorem ParserAlignedPacket_unpack_numberofblocks (t : Packet) (buf : Bytes)
+    (h : (Packet.unpack t buf).2 = .ok ()) :
+    (Packet.unpack t buf).1.numberofblocks = (Packet.unpack t buf).1.parserblocks.length := by
+  revert h
+  simp only [Packet.unpack]
+  split <;> simp
+
+example : (Packet.unpack { Packet.fresh with numberofblocks := 3 } [0, 2, 0, 0, 0, 0, 0, 0]).1 =
     (Packet.unpack Packet.fresh [0, 2, 0, 0, 0, 0, 0, 0]).1 := by decide
 
 end Acra.Props.C13
